@@ -12,7 +12,8 @@ Record lobj : Type := mklobj {
 
 Record ltm : Type := mkltm {
   lt_armed : option (Z * Z * Z);      (* callback id, due time, repeat interval (0 = once) *)
-  lt_closed : bool
+  lt_closed : bool;
+  lt_incb : bool                      (* a repeating timer whose callback fired and that was not touched since *)
 }.
 
 Record ledger : Type := mkledger {
@@ -29,7 +30,7 @@ Record ledger : Type := mkledger {
 Definition ledger_init : ledger := mkledger [] [] [] 0 0 None [] false.
 
 Definition gobj (g : ledger) (i : Z) : lobj := match lookup i (g_objs g) with Some o => o | None => mklobj None None false end.
-Definition gtm (g : ledger) (i : Z) : ltm := match lookup i (g_tmrs g) with Some t => t | None => mkltm None false end.
+Definition gtm (g : ledger) (i : Z) : ltm := match lookup i (g_tmrs g) with Some t => t | None => mkltm None false false end.
 Definition set_gobj (g : ledger) (i : Z) (o : lobj) : ledger :=
   mkledger (update i o (g_objs g)) (g_tmrs g) (g_posts g) (g_now g) (g_forced g) (g_cancel g) (g_unowned g) (g_fired g).
 Definition set_gtm (g : ledger) (i : Z) (t : ltm) : ledger :=
@@ -65,7 +66,7 @@ Definition inflight_count (g : ledger) : Z :=
    descriptor the batch reported ready was not dispatched (never completes)   10 timer fired before its delay elapsed
    11 scheduling while scheduled did not fail / disturbed the schedule   12 a closed timer was revived
    13 a legal schedule was refused   14 callback nesting deeper than MaxCallbackDispatch + 1   15 Dispatched not back to
-   its base value   16 an expired timer in the batch did not fire   21 Pending() differs from the operations in flight
+   its base value   17 scheduling from inside the callback of a live repeating timer did not fail   16 an expired timer in the batch did not fire   21 Pending() differs from the operations in flight
    22 PollOne dispatched handlers but reported 0   23 PollOne reported 0 without the timeout error
    30 posted handlers ran out of order   31 a queued post was not run by the poll that drained the waker *)
 Definition fail (g : ledger) (c : nat) : ledger * nat := (g, c).
@@ -102,7 +103,7 @@ Definition ledger_event (g : ledger) (e : lev) : ledger * nat :=
               let lt := gtm g t in
               match lt_armed lt with
               | Some (_, due, rep) =>
-                  let g1 := set_gtm g t (mkltm (if 0 <? rep then Some (cb, g_now g + rep, rep) else None) (lt_closed lt)) in
+                  let g1 := set_gtm g t (mkltm (if 0 <? rep then Some (cb, g_now g + rep, rep) else None) (lt_closed lt) (0 <? rep)) in
                   if g_now g <? due then fail g1 10%nat else (g1, 0%nat)
               | None => (g, 0%nat)
               end
@@ -132,7 +133,13 @@ Definition ledger_event (g : ledger) (e : lev) : ledger * nat :=
       let lt := gtm g t in
       if lt_closed lt then (if err =? 0 then fail g 12%nat else (g, 0%nat))
       else match lt_armed lt with
-           | Some _ => if err =? 0 then fail g 11%nat else (g, 0%nat)
+           | Some _ =>
+               if err =? 0 then
+                 (* 17 is reported and the ledger follows the implementation (the new schedule replaces the repetition),
+                    so that the rest of the script is still judged *)
+                 (if lt_incb lt then (set_gtm g t (mkltm (Some (cb, g_now g + ms, if rep then ms else 0)) false false), 17%nat)
+                  else fail g 11%nat)
+               else (g, 0%nat)
            | None =>
                if rep && (ms <=? 0) then (if err =? 0 then fail g 13%nat else (g, 0%nat))
                else if negb (err =? 0) then fail g 13%nat
@@ -141,17 +148,21 @@ Definition ledger_event (g : ledger) (e : lev) : ledger * nat :=
                  (if existsb (Z.eqb cb) (g_unowned g)
                   then (mkledger (g_objs g) (g_tmrs g) (g_posts g) (g_now g) (g_forced g) (g_cancel g) (remove_first cb (g_unowned g)) (g_fired g), 0%nat)
                   else fail g 16%nat)
-               else (set_gtm g t (mkltm (Some (cb, g_now g + ms, if rep then ms else 0)) false), 0%nat)
+               else (set_gtm g t (mkltm (Some (cb, g_now g + ms, if rep then ms else 0)) false false), 0%nat)
            end
-  | LTCancel t err => let lt := gtm g t in (set_gtm g t (mkltm None (lt_closed lt)), 0%nat)
-  | LTClose t err => (set_gtm g t (mkltm None true), 0%nat)
+  | LTCancel t err => let lt := gtm g t in (set_gtm g t (mkltm None (lt_closed lt) false), 0%nat)
+  | LTClose t err => (set_gtm g t (mkltm None true false), 0%nat)
   | LPost cb => (mkledger (g_objs g) (g_tmrs g) (g_posts g ++ [cb]) (g_now g) (g_forced g) (g_cancel g) (g_unowned g) (g_fired g), 0%nat)
   end.
 
 Fixpoint ledger_events (g : ledger) (evs : list lev) : ledger * nat :=
   match evs with
   | [] => (g, 0%nat)
-  | e :: r => let '(g1, c) := ledger_event g e in if (c =? 0)%nat then ledger_events g1 r else (g1, c)
+  | e :: r =>
+      let '(g1, c) := ledger_event g e in
+      if (c =? 0)%nat then ledger_events g1 r
+      else if (c =? 17)%nat then let '(g2, c2) := ledger_events g1 r in (g2, if (c2 =? 0)%nat then 17%nat else c2)
+      else (g1, c)
   end.
 
 (* progress obligations of a poll: computed on the ledger BEFORE the poll *)
@@ -201,8 +212,11 @@ Definition ledger_step (g : ledger) (o : lop) (evs : list lev) (pending disp ret
             | _ => g0 end in
   let obligations := match o with LPoll batch => must_complete g0 batch | _ => [] end in
   let '(g1, c) := ledger_events g0 evs in
-  if negb (c =? 0)%nat then (g1, c)
-  else if negb (match g_unowned g1 with [] => true | _ => false end) then (g1, 1%nat)
+  if negb (c =? 0)%nat && negb (c =? 17)%nat then (g1, c)
+  else
+  let soft (r : ledger * nat) : ledger * nat := if (snd r =? 0)%nat then (fst r, c) else r in
+  soft (
+  if negb (match g_unowned g1 with [] => true | _ => false end) then (g1, 1%nat)
   else if negb (disp =? g_forced g1) then (g1, 15%nat)
   else if negb (pending =? inflight_count g1) then (g1, 21%nat)
   else match o with
@@ -215,4 +229,4 @@ Definition ledger_step (g : ledger) (o : lop) (evs : list lev) (pending disp ret
                else (g1, 0%nat)
            end
        | _ => (g1, 0%nat)
-       end.
+       end).
